@@ -66,7 +66,11 @@ func chainCheck(prefix string, w *World, d *core.Dir, requireAll, onlyHashed boo
 		if !bytes.Equal(c.Issuer.Raw, iss.Cert.Subject.Raw) {
 			sig := prefix + "/issuer-dn-bytes"
 			if sameNameText(c.Issuer, iss.Cert.Subject) {
-				sig = prefix + "/issuer-dn-reencoded"
+				// same text, other string types: told apart by who made the issuer certificate
+				sig = prefix + "/issuer-dn-reencoded/own-issuer"
+				if !iss.Art.HasHashLine {
+					sig = prefix + "/issuer-dn-reencoded/imported-issuer"
+				}
 			}
 			return core.Failf(sig, "%s: issuer DN %s differs from the subject DN %s of issuer %q's certificate", e.EffAlias(), hexs(c.Issuer.Raw), hexs(iss.Cert.Subject.Raw), e.Issuer)
 		}
@@ -266,7 +270,7 @@ func TestC01(t *testing.T) {
 	quickAlgs := []string{"RSA-1024", "RSA-2048", "RSA-4096", "P-224", "P-256", "P-256", "P-384", "P-521", "brainpoolP256r1", "brainpoolP384r1", "brainpoolP512r1", "brainpoolP256t1", "brainpoolP384t1", "brainpoolP512t1"}
 	gen := func(t *rapid.T) forest {
 		f := genForest(t, forestOpts{MaxEntities: 7, MaxDepth: 4, KeyAlgs: quickAlgs, PrePlaceRSA: 95, Mismatch: 6, Profiles: true, Extensions: true, Imported: 30})
-		if r.Known("C01/issuer-dn-reencoded") {
+		if r.Known("C01/issuer-dn-reencoded/imported-issuer") {
 			// open finding, confirmed by its committed replay on every run: exclude the class by
 			// construction (re-import the root with gopki's own string types) so that search continues
 			for alias, class := range f.Imported {
@@ -277,7 +281,7 @@ func TestC01(t *testing.T) {
 				art := core.ParseArtifact(f.W.Files[core.PemPath(e.File)])
 				f.W.Files[core.PemPath(e.File)] = append(core.PemBlock("CERTIFICATE", builtSelfSigned(art.KeyDER, "Imported Root (plain)", false)), core.PemBlock("PRIVATE KEY", art.KeyDER)...)
 				f.Imported[alias] = "built"
-				r.Excluded["imported issuer with foreign string types (open finding C01/issuer-dn-reencoded)"]++
+				r.Excluded["imported issuer with foreign string types (open finding C01/issuer-dn-reencoded/imported-issuer)"]++
 			}
 		}
 		return f
